@@ -15,8 +15,12 @@ package main
 //   C18 L # <event trace>   two overlapping Stop calls (documents F18c).
 
 import (
+	"bufio"
 	"bytes"
 	"fmt"
+	"os"
+	"os/exec"
+	"path/filepath"
 	"runtime"
 	"strconv"
 	"strings"
@@ -510,9 +514,12 @@ func runC18(tier string, seed uint64, o *Out) error {
 	strategies := []string{"drop", "block", "expand"}
 	scriptKinds := []string{"direct", "analytic", "counting1", "global1"}
 	randKinds := []string{"direct", "analytic", "cep", "tumbling", "sliding", "session", "tumblingE", "slidingE", "sessionE", "counting", "global"}
-	nScript, nRand := 3, 2
+	nScript, nRand := 8, 5
 	if tier == "thorough" {
 		nScript, nRand = 40, 30
+	}
+	if tier == "race" { // internal tier: this binary was built with -race by the thorough tier (see c18RaceRun)
+		nScript, nRand = 2, 6
 	}
 	// (1) scripts, several at a time (their goroutine accounting is switched off; the sequential cases below do it)
 	var scripts []c18Script
@@ -576,7 +583,49 @@ func runC18(tier string, seed uint64, o *Out) error {
 	}
 	o.Line("%s", l)
 	o.Count("overlapping_stop")
+	if tier == "thorough" {
+		return c18RaceRun(seed, o)
+	}
 	return nil
+}
+
+// c18RaceRun (thorough tier): data races are not expressible in the model, so the same harness is rebuilt with the
+// race detector and run again on fresh seeds; a reported race makes that process exit with status 66, which fails
+// this run with the detector's report and the seed. This is testing, and is reported as such.
+func c18RaceRun(seed uint64, o *Out) error {
+	exe, err := os.Executable()
+	if err != nil {
+		return err
+	}
+	src := filepath.Join(filepath.Dir(filepath.Dir(exe)), "harness")
+	bin := filepath.Join(filepath.Dir(exe), "harness_race")
+	build := exec.Command("go", "build", "-race", "-tags", "verif", "-o", bin, ".")
+	build.Dir = src
+	build.Env = append(os.Environ(), "CGO_ENABLED=1")
+	if out, err := build.CombinedOutput(); err != nil {
+		o.Count("race_detector_unavailable")
+		fmt.Fprintf(os.Stderr, "C18: go build -race failed, race tier skipped: %v\n%s\n", err, out)
+		return nil
+	}
+	tmp := bin + ".cases"
+	run := exec.Command(bin, "C18", "race", strconv.FormatUint(seed+1000003, 10), tmp)
+	run.Env = append(os.Environ(), "GORACE=halt_on_error=1 exitcode=66")
+	out, err := run.CombinedOutput()
+	if err != nil {
+		return fmt.Errorf("race-detector run (seed %d) failed: %v\n%s", seed+1000003, err, out)
+	}
+	f, err := os.Open(tmp)
+	if err != nil {
+		return err
+	}
+	defer f.Close()
+	sc := bufio.NewScanner(f)
+	sc.Buffer(make([]byte, 1<<20), 1<<24)
+	for sc.Scan() {
+		o.Line("%s", sc.Text())
+		o.Count("under_race_detector")
+	}
+	return sc.Err()
 }
 
 func c18Join(s []string) string {
